@@ -510,6 +510,55 @@ print(json.dumps(out))
 '''
 
 
+DEPTH_PROG = r"""
+import sys, json, hashlib
+sys.path.insert(0, sys.argv[1])
+from Reduino.transpile.emitter import emit
+from Reduino.transpile.parser import parse
+def forms(n):
+    return {"constant-sum": "total = 1" + " + 1" * n + "\n",
+            "variable-sum": "a = 2\ntotal = a" + " + a" * n + "\n",
+            "constant-sum-then-variable": "a = 2\ntotal = 1" + " + 1" * n + " + a\n",
+            "nested-parentheses": "a = 2\ntotal = " + "(" * n + "a" + " + 1)" * n + "\n",
+            "sum-in-condition": "a = 2\nif 1" + " + 1" * n + " > a:\n    a = 3\n",
+            "sum-as-device-argument": "from Reduino.Actuators import Led\nled = Led(13)\nled.set_brightness(1" + " + 1" * n + ")\n"}
+def tr(src):
+    try:
+        return hashlib.sha256(emit(parse(src)).encode()).hexdigest()[:16]
+    except RecursionError:
+        return None          # no text produced in this context: nothing to compare
+    except ValueError as e:
+        return "ValueError"
+def at(extra, f, *a):
+    return f(*a) if extra <= 0 else at(extra - 1, f, *a)
+bad, n_cmp = [], 0
+for n in range(100, 1000, 45):
+    for fn, src in forms(n).items():
+        outs = {d: at(d, tr, src) for d in (0, 150, 400, 650, 850)}
+        texts = {d: t for d, t in outs.items() if t is not None}
+        n_cmp += len(texts)
+        if len(set(texts.values())) > 1:
+            bad.append({"form": fn, "terms": n, "text_by_extra_caller_frames": texts})
+print(json.dumps({"bad": bad[:6], "compared": n_cmp}))
+"""
+
+
+def stack_depth_obligation(out):
+    """the text is a function of the source alone: the same deep expression transpiled from a shallow and from a deeper caller stack
+    (a test runner, an IDE callback) gives the same text whenever both contexts produce text (BOUNDED: 20 sizes x 6 forms x 5 depths)"""
+    t0 = time.time()
+    src = os.path.join(os.environ.get("REDUINO_REPO", "/repo"), "src")
+    try:
+        r = subprocess.run(["/venv/bin/python", "-c", DEPTH_PROG, src], capture_output=True, text=True, timeout=600)
+        res = json.loads(r.stdout.strip().splitlines()[-1])
+        status = "discharged" if not res["bad"] and res["compared"] > 0 else ("sat" if res["bad"] else "unknown")
+    except Exception as ex:
+        res, status = {"error": f"{type(ex).__name__}: {ex}", "stderr": (r.stderr[-300:] if "r" in dir() else "")}, "unknown"
+    out.append({"name": "C10/bounded/caller-stack-depth-does-not-change-the-text", "status": status, "backend": "bounded-differential", "bounded": True,
+                "where": f"120 deep expressions (sums of 100..955 terms, 6 forms) transpiled with 0/150/400/650/850 extra caller frames: every context that produces text produces the same text "
+                         f"({res.get('compared')} texts compared)", "time": round(time.time() - t0, 2), "replay": res, "replay_confirmed": status == "sat"})
+
+
 def replay_differ(tier, seed, out):
     t0 = time.time()
     src = os.path.join(os.environ.get("REDUINO_REPO", "/repo"), "src")
@@ -576,6 +625,7 @@ def extra_obligations(mods_unused, tier, seed):
         if k:
             o["name"] += f"~{k + 1}"
     diffs = replay_differ(tier, seed, out)
+    stack_depth_obligation(out)
     _S["ctxkeys"], _S["fields"] = sorted(ctxkeys), sorted(fields)
     _S["sha"] = {m.rel: m.sha for m in mods}
     _S["mutable_globals"] = {m.rel: sorted(m.mutable_globals) for m in mods}
